@@ -184,7 +184,7 @@ impl Property for C11 {
 		"C11"
 	}
 	fn rule(&self) -> &'static str {
-		"each case builds one scene with fixed parameters and nothing in flight - static sounds (any rate incl. negative, loop regions, reverse, pan, other sample rates), a track tree with sends, optionally spatial tracks with a fixed listener, all eight built-in effects incl. nested delay feedback at any node - entirely before the first callback, and renders the same number of frames twice from fresh managers with two independent (internal buffer size 1..4096, callback partition) configurations: one-frame callbacks, non-multiples, buffers larger than the whole render. The two outputs must be bit-identical when the scene has no recursive effect and no spatial track, within 1e-6 with recursive effects, within 1e-5 x the gain of the recursive effects present when a spatial track is present. Non-trivial = the configurations differ, at least one callback is not a multiple of its internal buffer, and the output is not silent; distinct = distinct decoded choices."
+		"each case builds one scene with fixed parameters and nothing in flight - static sounds (any rate incl. negative, loop regions, reverse, pan, other sample rates), a track tree with sends, optionally spatial tracks with a fixed listener, all eight built-in effects incl. nested delay feedback at any node - entirely before the first callback, and renders the same number of frames twice from fresh managers with two independent (internal buffer size 1..4096, callback partition) configurations: one-frame callbacks, non-multiples, buffers larger than the whole render. The two outputs must be bit-identical when the scene has no recursive effect and no spatial track, within 1e-6 with recursive effects, within 1e-5 x the gain of the recursive effects, distortion drives and volumes above 0 dB present when a spatial track is present (spatial tracks differ by an ulp or two between partitions, and whatever follows them amplifies that). Non-trivial = the configurations differ, at least one callback is not a multiple of its internal buffer, and the output is not silent; distinct = distinct decoded choices."
 	}
 	fn assumptions(&self) -> Vec<String> {
 		vec![
@@ -239,6 +239,28 @@ impl Property for C11 {
 			}
 			for e in all {
 				cond *= super::c13::conditioning(e, frames, scene.program.config.sample_rate).max(1.0);
+				// ... and by plain gain: a distortion multiplies small differences by its drive, a
+				// volume control by its volume
+				cond *= match e {
+					crate::scene::fx::FxSpec::Distortion { drive_db, .. } if *drive_db > 0.0 => 1.0 + 10f32.powf(*drive_db / 20.0),
+					crate::scene::fx::FxSpec::Volume { db } if *db > 0.0 => 10f32.powf(*db / 20.0),
+					_ => 1.0,
+				};
+			}
+			// ... and by every volume above 0 dB on the way out (tracks, routes, send tracks, main track)
+			let boost = |v: &crate::scene::ast::VSpec| -> f32 { 10f32.powf((v.x.max(v.y).max(0.0) / 20.0) as f32) };
+			cond *= boost(&scene.program.config.main_volume);
+			for op in &scene.program.ops {
+				match op {
+					crate::scene::ast::Op::AddTrack(t) => {
+						cond *= boost(&t.volume);
+						for (_, v) in &t.sends {
+							cond *= boost(v);
+						}
+					}
+					crate::scene::ast::Op::AddSend { volume, .. } => cond *= boost(volume),
+					_ => {}
+				}
 			}
 			1e-5 * cond.min(1e4)
 		} else {
